@@ -99,6 +99,45 @@ def uf_axioms(exprs, max_p=8):
   return ax
 
 
+_FP_ARITH = None
+
+
+def abstract_fp_arith(exprs):
+  """Replace every floating-point ARITHMETIC sub-term (add, sub, mul, div, fma, sqrt, rem,
+  round-to-integral, int/real->fp conversions) by a fresh constant, the same constant for
+  the same term.  A sound over-approximation for validity: the abstracted formula allows
+  every behaviour of the original and more.  Models of the abstraction are candidates."""
+  global _FP_ARITH
+  if _FP_ARITH is None:
+    _FP_ARITH = {getattr(z3, n) for n in ('Z3_OP_FPA_ADD', 'Z3_OP_FPA_SUB', 'Z3_OP_FPA_MUL', 'Z3_OP_FPA_DIV', 'Z3_OP_FPA_FMA',
+                                         'Z3_OP_FPA_SQRT', 'Z3_OP_FPA_REM', 'Z3_OP_FPA_ROUND_TO_INTEGRAL', 'Z3_OP_FPA_TO_FP',
+                                         'Z3_OP_FPA_TO_FP_UNSIGNED') if hasattr(z3, n)}
+  memo = {}
+  fresh = {}
+
+  def go(e):
+    k = e.get_id()
+    if k in memo:
+      return memo[k]
+    if not z3.is_app(e) or e.num_args() == 0:
+      memo[k] = e
+      return e
+    if e.decl().kind() in _FP_ARITH:
+      c = fresh.get(k)
+      if c is None:
+        c = z3.Const(f'fpcut!{len(fresh)}', e.sort())
+        fresh[k] = c
+      memo[k] = c
+      return c
+    ch = [go(c) for c in e.children()]
+    r = e.decl()(*ch) if any(not a.eq(b) for a, b in zip(ch, e.children())) else e
+    memo[k] = r
+    return r
+
+  out = [go(e) if is_z3(e) else e for e in exprs]
+  return out, len(fresh)
+
+
 class Result(dict):
   @property
   def ok(self):
